@@ -8,7 +8,7 @@ from .ty import (TInt, TReal, TBool, TStr, TNone, TAny, TTuple, TRec, TList, TDi
 from .vals import *  # noqa
 from .symex import t_and, t_or, t_not, t_ite, to_real, Frame, SPEC_BUILTINS
 from .interp import NUM, BUILTIN_CLASSES, VPoison
-from .comp import CompMixin, VRange, Source
+from .comp import CompMixin, VRange, Source, VParts
 
 LAZY_SPEC = {"requires", "ensures", "raises", "modifies", "returns", "invariant", "may_raise", "reads", "foreach",
              "bounded", "decreases", "shares", "cut_after", "all_yields", "types", "pure", "assume_contract", "implies", "iff", "ite", "forall", "exists", "old"}
@@ -966,6 +966,9 @@ class CallMixin(CompMixin):
         ha = self.resolve(st, a) if isinstance(a, VRef) else None
         hb = self.resolve(st, b) if isinstance(b, VRef) else None
         if isinstance(op, ast.Add):
+            if isinstance(a, (VFam, VParts)) and isinstance(b, (VFam, VParts)):
+                # list + list of two comprehension values: the pieces side by side (only aggregates consume it)
+                return VParts((a.fams if isinstance(a, VParts) else [a]) + (b.fams if isinstance(b, VParts) else [b]))
             if isinstance(ha, HList) and isinstance(hb, HList):
                 return self.alloc(st, HList(list(ha.items) + list(hb.items)))
             if isinstance(ha, HSeq) and isinstance(hb, HSeq):
